@@ -39,6 +39,14 @@ def configs(tier, seed):
             cfgs.append(dict(move="subtree", n=n, D=1, G=5, proposal=prop, outlier_prior=op, wiring=wiring, threshold=thr,
                              N=2, alpha=alphas[k % 3], data_seed=seed * 1000 + k % 11))
             k += 1
+    # sweep composition: one iteration of the run loop itself (n<=2, where every move conserves flow exactly)
+    for prop, op, sp in itertools.product(PROPOSALS, [0.0, 0.2], [0.0, 0.5, 1.0]):
+        if tier == "quick" and (k + seed) % 3:
+            k += 1
+            continue
+        cfgs.append(dict(move="sweep", n=2, D=1, G=4, proposal=prop, outlier_prior=op, wiring="run", threshold=0.5, N=2,
+                         subtree_update_prob=sp, alpha=alphas[k % 3], data_seed=seed * 1000 + k % 11))
+        k += 1
     if tier == "quick":
         n3 = [(PROPOSALS[(seed + 2) % 3], 0.0, ["library", "run"][seed % 2])]
     else:
@@ -203,7 +211,7 @@ def run(ctx):
             forests_n[key] = len(gen.all_forests(cfg["n"], outliers=key[1]))
         for s in range(forests_n[key]):
             tasks.append({"cfg": cfg, "start": s, "ci": ci})
-    tasks.sort(key=lambda t: -({"subtree": 100, "prg": 2, "dp": 1}[t["cfg"]["move"]] * t["cfg"]["n"]))
+    tasks.sort(key=lambda t: -({"subtree": 100, "sweep": 60, "prg": 2, "dp": 1}[t["cfg"]["move"]] * t["cfg"]["n"]))
     results = ctx.map("vlib.kernelx", "row_task", tasks, timeout=1800)
     rows = {}
     failed = set()
